@@ -13,7 +13,13 @@ that a generator task called synchronously (CNested).  The surrounding task retu
 if it comes back with anything else it was finished with somebody else's value.
 
 Return style: the body ends in `return v` or in `result(v); return`.  The ...Own shapes put into v
-whether get_active_task() is a task made for this very function (its .fn has the body's code)."""
+whether get_active_task() is a task made for this very function (its .fn has the body's code).
+
+Lookup history: the decorated attribute lives in a class hierarchy C, Sub(C), Sub2(C) (sibling).  A case
+carries 0-3 warm-ups (path, act, value): earlier uses of the SAME attribute object through another class or
+instance of the hierarchy - a bare lookup (WGet), t(v) (WSync), t.asynq(v).value() (WAsynq) or
+async_call.asynq(t, v) (WAsyncCall) - made at top level, in order, on every freshly built callable before
+the attribute is looked up for the form under test.  Their outcomes are reported too."""
 import sys
 
 import _common
@@ -98,9 +104,9 @@ def make_body(tag, tagnum, style, bk, log, proxy):
 
 FUNC_ONLY = ("DRetry", "DLru", "DCpi")
 STYLE = {"BFunc": "func", "BInst": "self", "BClass": "self", "BSub": "self", "BCmClass": "cls", "BCmInst": "cls",
-         "BCmSub": "cls", "BSmClass": "func", "BSmInst": "func"}
+         "BCmSub": "cls", "BSmClass": "func", "BSmInst": "func", "BSub2": "self", "BCmSub2": "cls", "BCmSubInst": "cls"}
 MTYPE = {"BCmClass": classmethod, "BCmInst": classmethod, "BCmSub": classmethod, "BSmClass": staticmethod,
-         "BSmInst": staticmethod}
+         "BSmInst": staticmethod, "BCmSub2": classmethod, "BCmSubInst": classmethod}
 
 
 class Cell(object):
@@ -108,8 +114,8 @@ class Cell(object):
 
 
 def build(deco, binding, bk, explicit=True):
-    """Returns a Cell with .target (what the user calls), .prefix (explicitly passed instance), .log,
-    .names (identity -> receiver name)."""
+    """Returns a Cell with .lookup(path) -> (what the user calls, explicitly passed instance), .log,
+    .names (identity -> receiver name).  Nothing is looked up yet: the attribute is only stored."""
     cell = Cell()
     log = cell.log = []
     style = STYLE[binding]
@@ -150,27 +156,35 @@ def build(deco, binding, bk, explicit=True):
         attr = acached_per_instance()(asynq_deco()(raw))
     else:
         raise ValueError(deco)
-    cell.prefix = ()
     cell.names = {}
     if binding == "BFunc":
-        cell.target = attr
+        cell.lookup = lambda path, explicit=True: (attr, ())
         return cell
     # instances are falsy on purpose (an empty container class): binding must test `is None`, not truthiness
     C = type("C", (object,), {"m": attr, "__len__": lambda self: 0})
     Sub = type("Sub", (C,), {})
-    obj, subobj = C(), Sub()
-    cell.keep = (C, Sub, obj, subobj)
-    cell.names = {id(obj): "RObj", id(subobj): "RSubObj", id(C): "RCls", id(Sub): "RSubCls"}
-    if binding in ("BInst", "BCmInst", "BSmInst"):
-        cell.target = obj.m
-    elif binding == "BSub":
-        cell.target = subobj.m
-    elif binding == "BCmSub":
-        cell.target = Sub.m
-    else:
-        cell.target = C.m
-    if binding == "BClass" and explicit:
-        cell.prefix = (obj,)
+    Sub2 = type("Sub2", (C,), {})
+    obj, subobj, sub2obj = C(), Sub(), Sub2()
+    cell.keep = (C, Sub, Sub2, obj, subobj, sub2obj)
+    cell.names = {id(obj): "RObj", id(subobj): "RSubObj", id(C): "RCls", id(Sub): "RSubCls",
+                  id(sub2obj): "RSub2Obj", id(Sub2): "RSub2Cls"}
+
+    def lookup(path, explicit=True):
+        """one attribute lookup through `path` (a binding of the same method kind)"""
+        if STYLE[path] != style or MTYPE.get(path) is not mtype or path == "BFunc":
+            raise ValueError("path %s is not a lookup of a %s attribute" % (path, binding))
+        if path in ("BInst", "BCmInst", "BSmInst"):
+            return obj.m, ()
+        if path in ("BSub", "BCmSubInst"):
+            return subobj.m, ()
+        if path == "BSub2":
+            return sub2obj.m, ()
+        if path == "BCmSub":
+            return Sub.m, ()
+        if path == "BCmSub2":
+            return Sub2.m, ()
+        return C.m, ((obj,) if path == "BClass" and explicit else ())
+    cell.lookup = lookup
     return cell
 
 
@@ -272,10 +286,34 @@ def outcome_of(cell, status, ctx, thunk):
         return ("CallerNone" if ctx == "CTop" else "CallerOwn"), {"RErr": [exn_id(e)]}
 
 
-def run_convention(conv, deco, binding, explicit, pos, kw, bk, ctx):
+WFORM = {"WSync": "Sync", "WAsynq": "AsynqValue", "WAsyncCall": "AsyncCall"}
+
+
+def warm_up(cell, hist, report=None):
+    """the earlier uses of the same attribute, in order, at top level"""
+    for path, act, v in hist:
+        if act == "WGet":
+            t, _ = cell.lookup(path)
+            getattr(t, "asynq", None)
+            out = "None"
+        else:
+            t, prefix = cell.lookup(path)
+            del cell.log[:]
+            r = run_form(cell, WFORM[act], t, prefix + (v,), {}, "CTop")
+            out = {"Some": [r[""][1]]}
+        if report is not None:
+            report.append(out)
+    del cell.log[:]
+
+
+def run_convention(conv, deco, binding, explicit, pos, kw, bk, ctx, hist, report=None):
     cell = build(deco, binding, bk, explicit)
-    t = cell.target
-    args = cell.prefix + tuple(pos)
+    warm_up(cell, hist, report)
+    t, prefix = cell.lookup(binding, explicit)
+    return run_form(cell, conv, t, prefix + tuple(pos), kw, ctx)
+
+
+def run_form(cell, conv, t, args, kw, ctx):
     status = ["SRetFuture"]
 
     def direct(keep_value):
@@ -376,9 +414,10 @@ def fn_kind(t, g, has_attr):
     return "GOther"
 
 
-def classify(deco, binding, bk):
+def classify(deco, binding, bk, hist):
     cell = build(deco, binding, bk)
-    t = cell.target
+    warm_up(cell, hist)
+    t, _ = cell.lookup(binding)
     has_attr = hasattr(t, "asynq")
     gk = fn_kind(t, get_async_fn(t), has_attr)
     hk = fn_kind(t, get_async_or_sync_fn(t), has_attr)
@@ -388,8 +427,10 @@ def classify(deco, binding, bk):
     # how the callable can actually be called, observed with arguments that bind (a=1): does the direct
     # call hand back a future, is there a usable .asynq
     probe = build(deco, binding, bk)
+    warm_up(probe, hist)
     try:
-        r = probe.target(*(probe.prefix + (1,)))
+        t, prefix = probe.lookup(binding)
+        r = t(*(prefix + (1,)))
         extra["probe_direct"] = "future" if isinstance(r, FutureBase) else "value"
         if isinstance(r, FutureBase):
             r.value()
@@ -398,8 +439,10 @@ def classify(deco, binding, bk):
             raise
         extra["probe_direct"] = "raised:" + type(e).__name__
     probe = build(deco, binding, bk)
+    warm_up(probe, hist)
     try:
-        r = probe.target.asynq(*(probe.prefix + (1,)))
+        t, prefix = probe.lookup(binding)
+        r = t.asynq(*(prefix + (1,)))
         extra["probe_asynq"] = "future" if isinstance(r, FutureBase) else "value"
         if isinstance(r, FutureBase):
             r.value()
@@ -413,16 +456,18 @@ def classify(deco, binding, bk):
 
 
 def run_case(c):
-    deco, binding, explicit, pos, kwl, bk, ctx = c["args"]
+    deco, binding, explicit, pos, kwl, bk, ctx, histl = c["args"]
+    hist = [tuple(w[""]) for w in histl]
     bk = tuple(bk["BK"])
     explicit = explicit == "true"
     kw = {}
     for item in kwl:
         name, v = item[""]
         kw[{"Ka": "a", "Kb": "b", "Kk": "k", "Kz": "z"}[name]] = v
-    convs = [run_convention(cv, deco, binding, explicit, pos, kw, bk, ctx) for cv in CONVS]
-    cl, extra = classify(deco, binding, bk)
-    return {"out": {"": [convs, cl]}, "extra": extra}
+    report = []
+    convs = [run_convention(cv, deco, binding, explicit, pos, kw, bk, ctx, hist, report if cv == "Sync" else None) for cv in CONVS]
+    cl, extra = classify(deco, binding, bk, hist)
+    return {"out": {"": [convs, cl, report]}, "extra": extra}
 
 
 if __name__ == "__main__":
